@@ -55,7 +55,34 @@ class C06(Check):
         from mc.checks import c03_cli
 
         out += [("cli", *s[1:]) for s in c03_cli.shards(tier)]
+        for buf in (1, 2, 3, 4, 11):
+            out.append(("pair", buf))
         return out
+
+    def host_pair(self, buf, ctx):
+        """FASTA + AGP written from one assembly object (what pretext-to-asm does for -o x.fa): record length == AGP object end"""
+        from mc.checks import c03
+        from tola.assembly.assembly import Assembly
+        from tola.fasta.stream import FastaStream
+
+        fi = c03.CHECK.make_index(4, "LF", buf)
+        rows = [r for r in c03.all_rows(c03.BUFFERS) if not (r[0] == "G" and r[1] == 0)]  # AGP cannot express a 0-length gap
+        for r1 in rows:
+            for r2 in [None, *rows]:
+                rr = [r1] if r2 is None else [r1, r2]
+                case = ["pair", buf, [list(r) for r in rr]]
+                ctx.cur = case
+                ctx.evaluations += 1
+                ctx.nontrivial += 1
+                asm = Assembly("x", scaffolds=[fm.build_scaffold("s1", rr)])
+                out = io.BytesIO()
+                FastaStream(out, fi).write_assembly(asm)
+                reclen = sum(len(ln) for ln in out.getvalue().split(b"\n")[1:])
+                agp = io.StringIO()
+                format_agp(asm, agp)
+                for klass, detail in agpcheck.validate_agp(agp.getvalue(), {"s1": reclen})[:2]:
+                    ctx.violation(klass + "/fasta-record-length", case, detail)
+        ctx.sample({"host": "FASTA+AGP pair", "buffer": buf})
 
     # ------------------------------------------------------------------
     def validate_asm(self, asm, case, ctx, expect_extra=None, names_must_be_unique=False):
@@ -180,6 +207,8 @@ class C06(Check):
             from mc.checks import c03_cli
 
             c03_cli.run_shard(self, ("cli", *shard[1:]), ctx, validate_only=True)
+        elif kind == "pair":
+            self.host_pair(shard[1], ctx)
 
     def replay(self, case, ctx):
         kind = case[0]
@@ -195,6 +224,8 @@ class C06(Check):
             from mc.checks import c03_cli
 
             c03_cli.replay(self, case, ctx)
+        elif kind == "pair":
+            self.host_pair(case[1], ctx)
 
 
 CHECK = C06()
